@@ -5,15 +5,15 @@ Exit codes: 0 property held on everything explored; 1 VIOLATION (not listed
 in KNOWN_FINDINGS.txt); 2 harness error (never 0 after a worker death, a
 timeout or a replay mismatch).
 """
-import concurrent.futures as cf
 import faulthandler
 import hashlib
 import json
 import logging
-import multiprocessing
 import os
+import pickle
 import random
 import resource
+import signal
 import subprocess
 import sys
 import time
@@ -51,7 +51,9 @@ def run_seed(check, seed, population, i):
 
 
 def rng_for(check, seed, population, i):
-    return random.Random(run_seed(check, seed, population, i))
+    r = random.Random(run_seed(check, seed, population, i))
+    r.run_index = i
+    return r
 
 
 def quiet_library_logging():
@@ -145,6 +147,29 @@ class Aggregate:
         self.harness_errors.extend(o.harness_errors)
 
 
+def _selftest_fault(population, i):
+    """Harness self-test only (VERIF_TEST_FAULT=pop:i:mode[:marker]): make
+    the worker running one run crash or stall, to exercise the pool's
+    attribution and retry logic."""
+    spec = os.environ.get('VERIF_TEST_FAULT')
+    if not spec:
+        return
+    parts = spec.split(':')
+    if parts[0] != population or int(parts[1]) != i:
+        return
+    mode = parts[2]
+    if mode.endswith('-once'):
+        marker = parts[3]
+        if os.path.exists(marker):
+            return
+        open(marker, 'w').close()
+    if mode.startswith('crash'):
+        os.kill(os.getpid(), signal.SIGSEGV)
+    if mode.startswith('stall'):
+        while True:
+            pass
+
+
 def _run_chunk(args):
     (spec_mod, check, seed, population, tier, lo, hi, wal_path,
      want_sample) = args
@@ -155,23 +180,23 @@ def _run_chunk(args):
         if wal_path:
             with open(wal_path, 'w') as f:
                 f.write('%s %d\n' % (population, i))
-        faulthandler.dump_traceback_later(
-            120 if population == 'sweep' else 30, exit=True)
         try:
+            _selftest_fault(population, i)
             rng = rng_for(check, seed, population, i)
             trace = mod.generate(check, population, rng, tier)
             res = mod.execute(check, trace)
-        except Exception as e:  # harness failure, never a verdict
+        except Exception:  # harness failure, never a verdict
             import traceback
             agg.harness_errors.append(
                 '%s/%s/%d: %s' % (check, population, i,
                                   traceback.format_exc()[-1500:]))
             continue
-        finally:
-            faulthandler.cancel_dump_traceback_later()
         agg.runs += 1
         if res.get('nontrivial'):
             agg.nontrivial.add(res['digest'][:16])
+        if i < 64:
+            agg.extra.setdefault('digests', set()).add(
+                '%s/%d=%s' % (population, i, res['digest'][:24]))
         agg.add_counts(agg.fired, res.get('fired', {}))
         agg.add_counts(agg.probes, res.get('probes', {}))
         agg.add_counts(agg.oracles, res.get('oracles', {}))
@@ -193,15 +218,61 @@ def _run_chunk(args):
                                        trace))
         if want_sample and len(agg.samples) < 2 and res.get('nontrivial'):
             agg.samples.append(mod.sample_view(trace, res))
-    if wal_path:
-        try:
-            os.unlink(wal_path)
-        except OSError:
-            pass
     return agg
 
 
 # -------------------------------------------------------------- parent side
+#
+# A small fork-per-chunk pool.  The parent knows every child's pid, exit
+# status and write-ahead record, so a worker that dies or stalls is
+# attributed to one run, that run is re-tried alone, and nothing else is
+# lost.  Workers are single-threaded (no watchdog thread inside them); the
+# wall-clock backstop is the parent watching the write-ahead files.
+
+class _Child:
+    __slots__ = ('pid', 'job', 'wal', 'out', 'started', 'killed')
+
+
+def _spawn(job, spec_mod, check, seed, tier, wal_dir, serial):
+    population, lo, hi, want_sample = job
+    c = _Child()
+    c.job = job
+    c.wal = os.path.join(wal_dir, 'wal%d' % serial)
+    c.out = os.path.join(wal_dir, 'out%d' % serial)
+    c.started = time.time()
+    c.killed = False
+    sys.stdout.flush()
+    sys.stderr.flush()
+    pid = os.fork()
+    if pid == 0:
+        code = 1
+        try:
+            _worker_init(3 * 1024 ** 3)
+            agg = _run_chunk((spec_mod, check, seed, population, tier, lo,
+                              hi, c.wal, want_sample))
+            with open(c.out + '.tmp', 'wb') as f:
+                pickle.dump(agg, f, protocol=pickle.HIGHEST_PROTOCOL)
+            os.replace(c.out + '.tmp', c.out)
+            code = 0
+        except BaseException:
+            import traceback
+            traceback.print_exc()
+        finally:
+            sys.stdout.flush()
+            sys.stderr.flush()
+            os._exit(code)
+    c.pid = pid
+    return c
+
+
+def _wal_read(path):
+    try:
+        with open(path) as f:
+            population, i = f.read().split()
+        return population, int(i), os.path.getmtime(path)
+    except Exception:
+        return None
+
 
 def run_batches(spec_mod, check, tier, plan, workers=None, wall_cap=None,
                 chunk=None, wal_dir=None):
@@ -211,79 +282,138 @@ def run_batches(spec_mod, check, tier, plan, workers=None, wall_cap=None,
     t0 = time.time()
     agg = Aggregate()
     info = {'planned': sum(n for _, n in plan), 'workers': workers,
-            'worker_deaths': 0, 'timed_out': False, 'per_population': {}}
-    ctx = multiprocessing.get_context('fork')
-    jobs = []
+            'worker_deaths': 0, 'timed_out': False, 'per_population': {},
+            'transient_worker_failures': [], 'confirmed_timeouts': [],
+            'confirmed_crashes': []}
+    queue = []
     for population, n in plan:
         csz = chunk or max(1, min(100, n // (workers * 4) or 1))
         for lo in range(0, n, csz):
-            jobs.append((population, lo, min(n, lo + csz)))
+            queue.append((population, lo, min(n, lo + csz), lo == 0))
+    queue.reverse()
     wal_dir = wal_dir or os.path.join(
         '/dev/shm' if os.path.isdir('/dev/shm') else '/tmp',
         'verif-wal-%d' % os.getpid())
     os.makedirs(wal_dir, exist_ok=True)
-    dead_runs = []
+    live = {}
+    serial = 0
+    retried = {}     # (population, i) -> number of solo attempts
+    stall_limit = float(os.environ.get('VERIF_STALL_S', '30'))
+
+    def limit_for(population):
+        return stall_limit * 4 if population == 'sweep' else stall_limit
+
     try:
-        with cf.ProcessPoolExecutor(
-                max_workers=workers, mp_context=ctx,
-                initializer=_worker_init,
-                initargs=(3 * 1024 ** 3,)) as ex:
-            futs = {}
-            for j, (population, lo, hi) in enumerate(jobs):
-                wal = os.path.join(wal_dir, 'job%d' % j)
-                f = ex.submit(_run_chunk, (spec_mod, check, seed, population,
-                                           tier, lo, hi, wal, lo == 0))
-                futs[f] = (population, lo, hi)
-            pending = set(futs)
-            while pending:
-                remaining = None
-                if wall_cap is not None:
-                    remaining = wall_cap - (time.time() - t0)
-                    if remaining <= 0:
-                        info['timed_out'] = True
-                        for f in pending:
-                            f.cancel()
-                        break
-                done, pending = cf.wait(pending, timeout=remaining,
-                                        return_when=cf.FIRST_COMPLETED)
-                for f in done:
-                    population, lo, hi = futs[f]
-                    try:
-                        a = f.result()
-                    except cf.process.BrokenProcessPool:
-                        info['worker_deaths'] += 1
-                        continue
-                    except cf.CancelledError:
-                        continue
+        while queue or live:
+            while queue and len(live) < workers:
+                job = queue.pop()
+                serial += 1
+                c = _spawn(job, spec_mod, check, seed, tier, wal_dir, serial)
+                live[c.pid] = c
+            # reap
+            reaped = False
+            for pid in list(live):
+                try:
+                    rpid, status = os.waitpid(pid, os.WNOHANG)
+                except ChildProcessError:
+                    rpid, status = pid, 1
+                if rpid == 0:
+                    continue
+                reaped = True
+                c = live.pop(pid)
+                population, lo, hi, _ = c.job
+                ok = os.WIFEXITED(status) and os.WEXITSTATUS(status) == 0 \
+                    and os.path.exists(c.out)
+                if ok:
+                    with open(c.out, 'rb') as f:
+                        a = pickle.load(f)
                     agg.merge(a)
-                    pp = info['per_population'].setdefault(population, 0)
-                    info['per_population'][population] = pp + a.runs
-            if info['timed_out']:
-                ex.shutdown(wait=False, cancel_futures=True)
-                for p in list(getattr(ex, '_processes', {}).values()):
+                    info['per_population'][population] = \
+                        info['per_population'].get(population, 0) + a.runs
+                else:
+                    info['worker_deaths'] += 1
+                    w = _wal_read(c.wal)
+                    how = 'stalled' if c.killed else (
+                        'signal %d' % os.WTERMSIG(status)
+                        if os.WIFSIGNALED(status) else
+                        'exit %d' % os.WEXITSTATUS(status))
+                    if w is None:
+                        # died before its first run: retry the chunk once
+                        key = (population, -lo - 1)
+                        retried[key] = retried.get(key, 0) + 1
+                        if retried[key] <= 1:
+                            queue.append(c.job)
+                        else:
+                            info['confirmed_crashes'].append(
+                                [population, lo, how + ' before first run'])
+                    else:
+                        i = w[1]
+                        key = (population, i)
+                        if hi - lo == 1 and lo == i:
+                            # this was already the solo attempt
+                            if c.killed:
+                                info['confirmed_timeouts'].append(
+                                    [population, i])
+                            else:
+                                info['confirmed_crashes'].append(
+                                    [population, i, how])
+                        else:
+                            info['transient_worker_failures'].append(
+                                [population, i, how])
+                            if lo < i:
+                                queue.append((population, lo, i, False))
+                            if i + 1 < hi:
+                                queue.append((population, i + 1, hi, False))
+                            queue.append((population, i, i + 1, False))
+                for path in (c.wal, c.out):
                     try:
-                        p.kill()
-                    except Exception:
+                        os.unlink(path)
+                    except OSError:
                         pass
-    except cf.process.BrokenProcessPool:
-        info['worker_deaths'] += 1
-    for fn in sorted(os.listdir(wal_dir)):
+            # watchdog: a run that makes no progress for too long
+            now = time.time()
+            for pid, c in live.items():
+                if c.killed:
+                    continue
+                w = _wal_read(c.wal)
+                last = w[2] if w else c.started
+                if now - last > limit_for(c.job[0]):
+                    c.killed = True
+                    try:
+                        os.kill(pid, signal.SIGKILL)
+                    except OSError:
+                        pass
+            if wall_cap is not None and now - t0 > wall_cap:
+                info['timed_out'] = True
+                for pid in live:
+                    try:
+                        os.kill(pid, signal.SIGKILL)
+                    except OSError:
+                        pass
+                for pid in list(live):
+                    try:
+                        os.waitpid(pid, 0)
+                    except OSError:
+                        pass
+                live.clear()
+                queue = []
+                break
+            if not reaped:
+                time.sleep(0.01)
+    finally:
+        for pid in list(live):
+            try:
+                os.kill(pid, signal.SIGKILL)
+                os.waitpid(pid, 0)
+            except OSError:
+                pass
         try:
-            with open(os.path.join(wal_dir, fn)) as f:
-                population, i = f.read().split()
-                dead_runs.append((population, int(i)))
-        except Exception:
-            pass
-        try:
-            os.unlink(os.path.join(wal_dir, fn))
+            for fn in os.listdir(wal_dir):
+                os.unlink(os.path.join(wal_dir, fn))
+            os.rmdir(wal_dir)
         except OSError:
             pass
-    try:
-        os.rmdir(wal_dir)
-    except OSError:
-        pass
-    info['dead_runs'] = dead_runs if (info['worker_deaths'] or
-                                      info['timed_out']) else []
+    info['dead_runs'] = [tuple(x) for x in info['confirmed_timeouts']]
     info['wall_s'] = time.time() - t0
     return agg, info
 
